@@ -50,6 +50,15 @@ CLAIMS = {
             "obligation.",
             "fake datagram transport, SimLoop, integer tuning; 3 (4) events per run; Reset only for unacknowledged notifications",
             TECH_E1, "DESIGN.md 5 C08"),
+    "C18": ("Two stacks S on one virtual-time loop; the first is put into one of 11 busy scenarios (CON awaiting ACK, awaiting "
+            "separate response, block-wise upload, client observation, slow server handler with pending empty-ACK timer, registered "
+            "observer, NSTART backlog, live deduplication entries, combinations) and shut down at a symbolic instant in [0,7000] "
+            "ticks, optionally with a new request submitted after k loop steps of the running shutdown; all client futures and "
+            "observations end with an aiocoap Error, handlers are cancelled, shutdown completes within the time-out, afterwards "
+            "nothing is sent and nothing raises when all remaining timers are run, later requests fail with LibraryShutdown and the "
+            "second context still completes its own request.",
+            "fake datagram transports (a send after close is recorded as violation), SimLoop, SHUTDOWN_TIMEOUT patched to 3000 ticks",
+            TECH_E1, "DESIGN.md 5 C18"),
     "C09": ("On stack S as server, handler outcome (13 kinds incl. every renderable error class, arbitrary exceptions such as "
             "KeyError/IndexError/TimeoutError, wrong return types, failing error renderers) x method x CON/NON x fast/slow x "
             "known/unknown path x nested site x concurrent failing/succeeding neighbour, all by symbolic index, are run to "
